@@ -335,6 +335,8 @@ def deadlock_items(tier):
     from mc.props import c04
 
     for it in c04.universe("quick" if tier == "quick" else "thorough"):
+        if it.get("kind"):
+            continue
         if it["mode"] == "asap" and not it["pin"] and it["shared"]:
             yield {"kind": "spec", "name": "c04", "spec": None, "c04": it}
 
